@@ -376,6 +376,8 @@ pub fn run_c11(o: &Opts) -> Report {
     let n_enum = (o.n / 2).max(20);
     let n_lex = (o.n / 2).max(20);
 
+    // texts of class 0 (the grammar must derive the tree the ASCII lexical parser returns): re-parsed below after other formats
+    let mut state_texts: Vec<String> = vec![];
     // ---- enum stream ----
     let mut g = term_gen_for(fm, if o.thorough { 6 } else { 4 }, if o.thorough { 5 } else { 4 });
     let mut values: Vec<(Narsese, &str)> = vec![];
@@ -400,6 +402,9 @@ pub fn run_c11(o: &Opts) -> Report {
         cx.rep.hist.add(format!("{}:{}:{}", stream, ["term", "sentence", "task"][kind_of(&v)], ctor_name(v.get_term())));
         cx.rep.sample(format!("[enum] {}", text));
         let (impl_lit, tag) = cx.observe(stream, &text, &canon_narsese(&v));
+        if tag == 0 && impl_lit != "None" {
+            state_texts.push(text.clone());
+        }
         cx.cases.push(format!("REnum {} {} {} {} {}", cnarsese(&v), shown_table(&v), cstr(&text), impl_lit, tag));
         cx.rep.case_descr.push(format!("{} text {:?} of {}", stream, text, canon_narsese(&v)));
     }
@@ -421,12 +426,55 @@ pub fn run_c11(o: &Opts) -> Report {
         cx.rep.hist.add(format!("{}:{}:{}", stream, ["term", "sentence", "task"][lkind(&x)], ltop(lterm_of(&x))));
         cx.rep.sample(format!("[lex] {}", text));
         let (impl_lit, tag) = cx.observe(stream, &text, "lexical value");
+        if tag == 0 && impl_lit != "None" {
+            state_texts.push(text.clone());
+        }
         // C02's business, recorded only: does the lexical parser return the value that was printed?
         if let Ok(Some(w)) = real_lex_parse(&text) {
             cx.rep.hist.add(if w == x { "lex:roundtrip-same" } else { "lex:roundtrip-differs" });
         }
         cx.cases.push(format!("RLex {} {} {} {}", clnarsese(&x), cstr(&text), impl_lit, tag));
         cx.rep.case_descr.push(format!("{} text {:?}", stream, text));
+    }
+
+    // ---- state kept by the lexical parser across calls ----
+    // The tree compared with the grammar above is the one the ASCII lexical parser returns on THIS thread, which has used
+    // no other format.  The property speaks of "the tree the library's ASCII lexical parser returns" without such a proviso:
+    // the same texts are parsed again with the ASCII format (shared static and owned `create_format_ascii()` values) on
+    // fresh threads that parsed LaTeX / Han texts first, in every order, and directly after the same text under another
+    // format (lexprops::lex_state_search); a different tree (or none) is then a tree the grammar does not derive.
+    {
+        let mut srng = Rng::new(o.seed ^ 0xC11_57A7E);
+        let (mut texts, always, warm) = crate::lexprops::state_corpus(&mut srng, 0);
+        texts.truncate(always);
+        state_texts.sort();
+        state_texts.dedup();
+        srng.shuffle(&mut state_texts);
+        let own: Vec<String> = state_texts.into_iter().filter(|t| t.chars().count() <= 160).take(if o.thorough { 600 } else { 150 }).collect();
+        let own_set: BTreeSet<String> = own.iter().cloned().collect();
+        texts.extend(own);
+        let res = crate::lexprops::lex_state_search(&texts, always, if o.thorough { 200 } else { 60 }, &warm, &[0], &mut srng);
+        cx.rep.evaluations += res.observations as u64;
+        cx.rep.hist.0.insert("state:histories".into(), res.histories as u64);
+        cx.rep.hist.0.insert("state:observations".into(), res.observations as u64);
+        for f in res.findings {
+            // domain: texts the ASCII formatters produced -- this run's class-0 texts, or a corpus text that the ASCII
+            // lexical formatter prints for its own cold parse
+            let formatter_output = own_set.contains(&f.text)
+                || matches!(&f.cold.parse, Ok(Some(w)) if class_of(w) == 0 && guard(|| LEX_ASCII.format_narsese(w)).as_deref() == Some(f.text.as_str()));
+            if formatter_output && f.got.parse != f.cold.parse {
+                cx.rep.fail(Failure {
+                    stream: "state".into(),
+                    what: "the ASCII lexical parser returns a different tree (or none) for the same formatter output once the thread has parsed another format / with an owned ASCII format: not the tree the grammar derives".into(),
+                    input: format!("{:?} -- history: {}", f.text, f.history),
+                    expected: format!("{:?}", f.cold.parse),
+                    got: format!("{:?}", f.got.parse),
+                    known: None,
+                });
+            } else {
+                cx.rep.hist.add("state:dependence-outside-the-domain (C08's business)");
+            }
+        }
     }
 
     // ---- the characters used, and all of ASCII, against Rust's std ----
